@@ -49,16 +49,17 @@ func (t *CType) String() string {
 type Clause struct {
 	Label   string
 	Assumed bool // label starts with "assumed": exported to callers, not checked (listed as an assumption)
-	E     *CExpr
-	Src   string
+	E       *CExpr
+	Src     string
 }
 
 type LoopContract struct {
-	Ordinal  int
-	Var      string
-	Invs     []Clause
-	Modifies []*CExpr
-	HasMod   bool
+	Ordinal   int
+	Var       string
+	Invs      []Clause
+	Modifies  []*CExpr
+	HasMod    bool
+	Forget    bool     // at this loop head, drop the invariant facts of enclosing loops (the invariant is self-contained)
 	Preserves []*CExpr // cells (possibly allocated by this function) that the loop does not write
 }
 
@@ -68,27 +69,27 @@ type Param struct {
 }
 
 type FuncContract struct {
-	Key      string // e.g. "StreamStats.Combine", "labeledMerge", "InvCDF#lit1"
-	Pkg      string // package name
-	Model    string
-	Requires []Clause
-	Ensures  []Clause
-	Assigns  []*CExpr
+	Key        string // e.g. "StreamStats.Combine", "labeledMerge", "InvCDF#lit1"
+	Pkg        string // package name
+	Model      string
+	Requires   []Clause
+	Ensures    []Clause
+	Assigns    []*CExpr
 	HasAssigns bool
-	Loops    map[int]*LoopContract
-	Inline   bool
-	Assume   bool
-	Results  []string
-	Trusted  string
-	File     string
-	Line     int
-	Lets     []LetDef
-	Witnesses []WitnessDef // ghost results: witness name = expr @retN
-	Uses     []string
-	Abstract []string // spec functions treated as uninterpreted (over the heaps they read) in this function
-	Checks   []AnchoredAssert // return-time assertions over locals (not exported to callers)
-	Pure     bool // assume func: result is a function of args only (deterministic)
-	Asserts  []AnchoredAssert
+	Loops      map[int]*LoopContract
+	Inline     bool
+	Assume     bool
+	Results    []string
+	Trusted    string
+	File       string
+	Line       int
+	Lets       []LetDef
+	Witnesses  []WitnessDef // ghost results: witness name = expr @retN
+	Uses       []string
+	Abstract   []string         // spec functions treated as uninterpreted (over the heaps they read) in this function
+	Checks     []AnchoredAssert // return-time assertions over locals (not exported to callers)
+	Pure       bool             // assume func: result is a function of args only (deterministic)
+	Asserts    []AnchoredAssert
 }
 
 type AnchoredAssert struct {
@@ -141,14 +142,14 @@ type PureDecl struct {
 }
 
 type ContractFile struct {
-	Pkg     string
-	Funcs   []*FuncContract
-	Specs   []*SpecFunc
-	Ghosts  []*GhostType
-	Lemmas  []*Lemma
-	Pures   []string
+	Pkg      string
+	Funcs    []*FuncContract
+	Specs    []*SpecFunc
+	Ghosts   []*GhostType
+	Lemmas   []*Lemma
+	Pures    []string
 	Symbolic []string // globals declared symbolic
-	Axioms  []Clause
+	Axioms   []Clause
 }
 
 // ---------------------------------------------------------------------
@@ -342,6 +343,8 @@ func parseContractFile(path, pkg string) (*ContractFile, error) {
 				switch {
 				case strings.HasPrefix(rest, "invariant"):
 					lc.Invs = append(lc.Invs, parseClause(strings.TrimSpace(rest[len("invariant"):])))
+				case strings.HasPrefix(rest, "forget"):
+					lc.Forget = true
 				case strings.HasPrefix(rest, "preserves"):
 					lc.HasMod = true
 					lc.Preserves = append(lc.Preserves, parseExprList(strings.TrimSpace(rest[len("preserves"):]))...)
@@ -668,9 +671,10 @@ func (l *lexer) parseQuant() *CExpr {
 		}
 		break
 	}
-	if l.isOp("{") { // optional trigger: { t1, t2 } (one multi-pattern)
+	if l.isOp("@") { // optional trigger: @[ t1, t2 ] (one multi-pattern)
 		l.next()
-		for !l.isOp("}") {
+		l.expectOp("[")
+		for !l.isOp("]") {
 			q.Pats = append(q.Pats, l.parseExpr(0))
 			if l.isOp(",") {
 				l.next()
